@@ -18,11 +18,15 @@ SPECS = {
     # property -> list of (spec name, module, tiers)
     "C02": [("c02_frame_decoder_memo", "c02m")],
     "C03": [("c03_request_stream_sequences", "c03"), ("c02_frame_decoder_memo", "c02m")],
-    "C04": [("c04_control_stream_rules", "c04"), ("c02_frame_decoder_memo", "c02m")],
+    "C04": [("c04_control_stream_rules", "c04"), ("c02_frame_decoder_memo", "c02m"), ("c19_uni_stream_header", "c19m")],
+    "C06": [("c02_frame_decoder_memo", "c02m"), ("c19_uni_stream_header", "c19m")],
     "C07": [("c07_stream_scoped_faults", "c03"), ("c02_frame_decoder_memo", "c02m")],
     "C05": [("c05_interleavings", "c05")],
     "C08": [("c08_goaway_rules", "c08")],
+    "C09": [("c09_request_end_accounting", "c09")],
     "C11": [("c11_static_table_lookups", "c11m")],
+    "C12": [("c12_message_gates", "c12")],
+    "C19": [("c19_uni_stream_header", "c19m")],
 }
 
 
